@@ -69,7 +69,9 @@ TAG_INL = ["{% tag %}", "{% tag a=1 b=\"two words\" %}", "{{ var }}", "{{ a.b | 
            # what is inside a tag is not Markdown: dunder names, underscores and stars that would pair as emphasis
            "{{ __version__ }}", "{% if obj.__class__ == x %}", "{# _note_ to self #}", "{{ a*b + c*d }}", "{% set t = _(\"Hello\") + _x_ %}",
            "{% if n % 10 == 0 and s == \"Loading...please wait\" %}", "{# issue #12: later...maybe it's #}", "{{ {\"a\": \"wait...what\"}|tojson }}"]
-ESCAPES = ["\\*", "\\_", "\\#", "\\[x\\]", "\\>", "a\\|b", "&amp;", "&lt;", "&#35;", "&copy;", "3\\)", "\\-", "\\+"]
+ESCAPES = ["\\*", "\\_", "\\#", "\\[x\\]", "\\>", "a\\|b", "&amp;", "&lt;", "&#35;", "&copy;", "3\\)", "\\-", "\\+",
+           # dots escaped on purpose (not an ellipsis); an escaped period in mid-text (the escape is dropped: v1.2)
+           "so\\.\\.\\.", "hm..\\.", "v1\\.2"]
 # an escaped ordered-list marker: not in documents with tag lines (listed finding *-escaped-number-in-tag-paragraph: the
 # escape is dropped and the tag handler then takes the line for a list item; exercised by its own sub-workload in C01/C02)
 ESCAPES_NUM = ["1999\\."]
